@@ -11,7 +11,8 @@ scenario (definitions, argv / config text, expectation) goes into the witness.
 
 Gating classes
   MUST-ACCEPT  int: -?D+ ; float: repr / %.17e / upper-case exponent / integral "3" ; bool:
-               true|false|1|0|t|f in any case, bare --flag ; str: itself ; datetime: the ten
+               true|false|1|0|t|f in any case, bare --flag ; str: itself (incl. values containing "_", "-",
+               "=", leading dashes, i.e. the characters of the option syntax: only names are normalised) ; datetime: the ten
                formats of _DATETIME_FORMATS with zero-padded fields ; timedelta: <number><unit> or
                <number> <unit> over the unit table, whitespace-separated sums, bare seconds ;
                multiple: comma lists, integer ranges a:b (inclusive, a <= b) ; config files: typed
@@ -44,7 +45,7 @@ PROP = "C44"
 META = {
     "level": "exploration",
     "technique": "generator-owned denotation: independent value printers (canonical + alternative forms) vs. values held by a fresh OptionParser after parse_command_line / parse_config_file; negative catalogue for unknown options and wrong-typed values",
-    "level_text": "Random definition sets (1-6 options; str/int/float/bool/datetime/timedelta; scalar and multiple; defaults of the type or None; dash/underscore name spellings) are parsed from generated command lines (-/--/--- prefixes, name spellings, `--` terminator, positional tail, final on/off) and generated config files (typed literals and strings); every option's value, type and every untouched default is compared with the generator's denotation; one-fault negative cases expect an error.",
+    "level_text": "Random definition sets (1-6 options; str/int/float/bool/datetime/timedelta; str values from a word list, a list of words built from the option-syntax characters _ - = and random strings over them; scalar and multiple; defaults of the type or None; dash/underscore name spellings) are parsed from generated command lines (-/--/--- prefixes, name spellings, `--` terminator, positional tail, final on/off) and generated config files (typed literals and strings); every option's value, type and every untouched default is compared with the generator's denotation; one-fault negative cases expect an error.",
     "level_note": "Any exception counts as rejection. Integer ranges are inclusive (code comment + options_test), the docstring's range(x, y) is recorded as a doc discrepancy. Time-only datetime formats are compared on the time part only.",
     "design_ref": "DESIGN.md Â§4 C44",
     "engine": "oracle",
@@ -106,8 +107,22 @@ WORDS = ["x", "hello", "a b", "a=b", "k=v=w", "-dash", "--x=1", "caf\xe9", "ä¸­æ
          "mydb.example.com:3306", " lead", "trail ", "q'uote\"s", "\\back", "#hash", "1", "true", "1.5"]
 
 
+# values made of the very characters the option syntax itself uses (name separators "_" and "-", "=", leading
+# dashes): a value is taken literally, only the option *name* is normalised
+SYNTAX_WORDS = ["my_app", "/var/log/my_app", "alice_smith", "__root__", "_", "__", "_lead", "trail_", "a__b",
+                "db_1.local", "a_b-c=d", "a-b_c", "snake_case_name", "kebab-case-name", "--log_dir=/x_y", "-_-",
+                "x_y=z_w", "=", "==", "=a_b", "a_b=", "1_000", "1_0.5", "UPPER_CASE", "caf\xe9_\u4e2d", "_=-"]
+WORD_ALPHABET = "abzAZ019__--==./:+@~% "
+
+
 def gen_str(rng, in_list=False):
-    s = rng.choice(WORDS)
+    r = rng.random()
+    if r < 0.5:
+        s = rng.choice(WORDS)
+    elif r < 0.75:
+        s = rng.choice(SYNTAX_WORDS)
+    else:
+        s = "".join(rng.choice(WORD_ALPHABET) for _ in range(rng.randint(1, 10)))
     if not in_list and rng.random() < 0.3:
         s = rng.choice(["", "a,b", ",", s + "," + s])
     return s, [(s, False)]
